@@ -47,6 +47,14 @@ Theorem C20_open_establishes_session : forall bkt g name path (d : bytes),
 Proof. exact open_establishes_session. Qed.
 Print Assumptions C20_open_establishes_session.
 
+(* The tie of the configuration: the switches regenerated from gcsfs/file.go and gcsfs/fs.go say that
+   the current sources are the repaired code; the theorems below about [cfg_patched] are therefore
+   about the configuration [cfg_src] that the correspondence check runs against the implementation.
+   Reverting one of the repairs makes this obligation fail. *)
+Theorem C20_source_configuration : cfg_src = cfg_patched.
+Proof. exact cfg_src_is_patched. Qed.
+Print Assumptions C20_source_configuration.
+
 (* A name that is not itself an object is a folder exactly when objects exist under it
    (Stat / newFileInfo).  For EVERY bucket layout: no prefix-freeness is needed at this name since
    the folder probe lists with the prefix path+"/" (gcs_fileinfo_prefix_sep, regenerated from
